@@ -54,6 +54,20 @@ def _obs_result(self, callback, *args, **kwargs):
 secsgem.common.CallbackHandler._call = _obs_result
 
 
+_orig_violate = hlib.Result.violate
+
+
+def _capped_violate(self, klass, what, case, expected=None, actual=None):
+    """at most five recorded cases per class (hlib keeps 200 in all: a listed finding must not crowd out a new one)"""
+    self.bump("oracle_findings", klass)
+    n = self.hist["oracle_findings"][str(klass)]
+    if n <= 5:
+        _orig_violate(self, klass, what, case, expected, actual)
+
+
+hlib.Result.violate = _capped_violate
+
+
 def header_only(s, f):
     return type(f"HarnessS{s:02d}F{f:02d}", (SecsStreamFunction,), {
         "_stream": s, "_function": f, "_data_format": None, "_to_host": True, "_to_equipment": True,
@@ -201,7 +215,11 @@ class Stream:
                 "comm": comm, "callback": has_cb, "outcome": oc}
         res.count((self.role, s, f, w, tag, body if tag != "random" else len(body), tuple(sorted(self.user.items())), comm, selected),
                   sample=case if tag == "random" and len(res.samples) < 6 else None)
-        res.bump("body", tag)
+        res.bump("body", tag.split("+")[0] if not tag.startswith("sys-") else "boundary-system")
+        if "+reused" in tag:
+            res.bump("system_bytes", "reused")
+        elif tag.startswith("sys-"):
+            res.bump("system_bytes", tag[4:])
         res.bump("w", int(bool(w)))
         res.bump("callback_outcome", (oc.split(".")[0] if has_cb else "no-callback"))
         res.bump("catalogued", (s, f) in CAT_CLS)
@@ -286,7 +304,7 @@ def uncatalogued_pairs(rng, tier, search):
         return [(s, f) for s in range(128) for f in range(256) if (s, f) not in CAT_CLS]
     pool = [(0, 1), (1, 5), (1, 19), (1, 255), (2, 1), (9, 2), (9, 6), (127, 0), (127, 255), (3, 0), (3, 1), (4, 1), (8, 1), (11, 1), (13, 1),
             (15, 1), (64, 1), (99, 1), (100, 100), (126, 254), (1, 100), (2, 100), (10, 10), (14, 5), (0, 255)]
-    n = 1500 if search else 260
+    n = 1500 if search else 700
     while len(pool) < n:
         p = (rng.range(0, 127), rng.range(0, 255))
         if p not in CAT_CLS:
@@ -314,6 +332,11 @@ def drive(role, res, rng, flags, tier, search, replay_cases=None):
             for tag, body in bodies(rng, s, f):
                 for w in (1, 0):
                     st.send(s, f, w, body, tag)
+        # 1b. boundary system bytes (the reply must echo them exactly), then the same system bytes once more (a closed
+        #     transaction's system bytes may be used again)
+        for system in (0, 1, 0x7FFFFFFF, 0x80000000, 0xFFFFFFFE, 0xFFFFFFFF, 0):
+            for (s, f, body) in ((1, 1, b""), (1, 3, b"\xff"), (99, 1, b""), (1, 13, b"\x01\x00"), (2, 17, b"")):
+                st.send(s, f, 1, body, f"sys-{system:#x}", system=system)
         # 2. uncatalogued pairs
         for (s, f) in uncatalogued_pairs(rng, tier, search):
             w = 1 if tier == "thorough" else rng.below(4) != 0
@@ -354,10 +377,17 @@ def drive(role, res, rng, flags, tier, search, replay_cases=None):
             t.join(gemrig.WAIT)
         # 6. a long mixed random sequence
         pool = CATALOGUE + uncatalogued_pairs(rng, "quick", False)[:40]
-        for i in range(3000 if (tier == "thorough" or search) else 400):
+        used = []
+        for i in range(3000 if (tier == "thorough" or search) else 1200):
             s, f = rng.choice(pool)
             tag, body = rng.choice(bodies(rng, s, f))
-            st.send(s, f, rng.below(2), body, tag)
+            system = None
+            if used and rng.below(4) == 0:
+                system, tag = rng.choice(used), tag + "+reused-system"   # system bytes of an earlier, closed transaction
+            else:
+                system = Rig.INBOUND + st.rig.fresh()
+                used.append(system)
+            st.send(s, f, rng.below(2), body, tag, system=system)
         return st
     except Exception:
         st.close()
